@@ -401,6 +401,95 @@ def owner_reference_deviations(r, truth: dict):
     return r.sample(out, min(len(out), 2))
 
 
+def sent_effect(ob: dict) -> dict:
+    """the effect of one observed case, derived from the REQUESTS the Function made (`gen_ft.effect_of_requests`),
+    not from what the mock says it holds; the conversation itself rides along for the model (`_cur`, `_calls`)
+    and what the mock reports as `_mock`"""
+    eff = dict(ob.get("eff_sent", ob["eff"]))
+    eff["_cur"] = ob.get("resource")
+    eff["_calls"] = ob.get("calls", [])
+    eff["_mock"] = ob["eff"]
+    return eff
+
+
+def calls_wire(calls) -> list:
+    return [{"c": c["c"], **({"body": to_wire(c["body"])} if c["c"] == "write" else {})} for c in calls]
+
+
+def verdict_request(case: dict, out, eff: dict) -> dict:
+    """the model's verdict: from the conversation with the mock (`Mock.effectOf`) when it was recorded, else from
+    the effect as given"""
+    if "_calls" in eff:
+        return {"op": "conv-verdict", "as": g.assertion_wire(case), "out": g.out_wire(out),
+                "cur": g.opt_wire(eff.get("_cur")), "calls": calls_wire(eff["_calls"])}
+    return {"op": "verdict", "as": g.assertion_wire(case), "out": g.out_wire(out), "eff": g.eff_wire(eff)}
+
+
+FOREIGN_METADATA = {          # what a live object carries and no Function target names
+    "uid": ["5c1f-0a", "9d2e"], "resourceVersion": ["41", "100977"], "generation": [1, 7],
+    "creationTimestamp": ["2024-05-01T10:00:00Z"], "finalizers": [["mesh.example/guard"], ["a/b", "c/d"]],
+    "managedFields": [[{"manager": "kubectl", "operation": "Update"}]], "selfLink": ["/apis/x"],
+}
+FOREIGN_LABELS = {"injected-by": "mesh", "pod-template-hash": "7d9f", "topology": "zone-a"}
+
+
+def add_foreign_metadata(r, cur: dict) -> dict:
+    """a copy of an existing resource with metadata members that somebody else put there (API server, another
+    controller): top-level metadata members, extra labels, extra annotations"""
+    cur = copy.deepcopy(cur)
+    md = cur.setdefault("metadata", {})
+    if not isinstance(md, dict):
+        return cur
+    for k in r.sample(sorted(FOREIGN_METADATA), r.choice([1, 2, 3, 4])):
+        md.setdefault(k, copy.deepcopy(r.choice(FOREIGN_METADATA[k])))
+    if r.random() < 0.6:
+        labels = md.setdefault("labels", {})
+        if isinstance(labels, dict):
+            for k in r.sample(sorted(FOREIGN_LABELS), r.choice([1, 2])):
+                labels.setdefault(k, FOREIGN_LABELS[k])
+    if r.random() < 0.3:
+        ann = md.setdefault("annotations", {})
+        if isinstance(ann, dict):
+            ann.setdefault("mesh.example/injected", "true")
+    return cur
+
+
+def never_sent_deviations(r, truth: dict, current, limit=3):
+    """one-step deviations that LIST what was never sent: a member of the current resource's metadata (or of a
+    map inside it) that the object sent does not have, added to the truthful expectation at the same place"""
+    if not (isinstance(current, dict) and isinstance(current.get("metadata"), dict)
+            and isinstance(truth.get("metadata"), dict)):
+        return []
+    out = []
+    cmd, tmd = current["metadata"], truth["metadata"]
+    for k, v in cmd.items():
+        if k in g.DIRECTIVES:
+            continue
+        if k not in tmd:
+            if k == "annotations" and isinstance(v, dict):
+                v = {a: b for a, b in v.items() if a != g.LAST_APPLIED}
+                if not v:
+                    continue
+            t = copy.deepcopy(truth)
+            t["metadata"][k] = copy.deepcopy(v)
+            out.append(("never-sent-metadata-member", t))
+        elif isinstance(v, dict) and isinstance(tmd[k], dict):
+            extra = [a for a in v if a not in tmd[k] and a not in g.DIRECTIVES and a != g.LAST_APPLIED]
+            if extra:
+                a = r.choice(extra)
+                t = copy.deepcopy(truth)
+                t["metadata"][k][a] = copy.deepcopy(v[a])
+                out.append(("never-sent-member-of-metadata-map", t))
+    if len(out) > 1:
+        t = copy.deepcopy(truth)
+        for k, v in cmd.items():
+            if k not in tmd and k not in g.DIRECTIVES and k != "annotations":
+                t["metadata"][k] = copy.deepcopy(v)
+        if not g.json_eq(t, truth):
+            out.append(("never-sent-metadata-members-all", t))
+    return r.sample(out, min(len(out), limit))
+
+
 def build_assertions(r, kind: str, out, eff: dict, index_free: bool = False, current=None):
     """[(label, case-spec-fragment, must_pass)] from what the Function really did.
     `index_free`: do not quote message text that names the case's position (C18 moves cases around)."""
@@ -470,6 +559,9 @@ def build_assertions(r, kind: str, out, eff: dict, index_free: bool = False, cur
                     cases.append((f"resource:{k}", {"expectResource": dev}, False))
             for k, dev in owner_reference_deviations(r, b_form):
                 cases.append((f"resource:ownerReferences-{k}", {"expectResource": dev}, False))
+            for k, dev in never_sent_deviations(r, b_form, eff.get("_cur") or current):
+                if not g.eqmod_ref(drop_empty_annotations(dev), b_form):
+                    cases.append((f"resource:{k}", {"expectResource": dev}, False))
         else:
             plausible = {"apiVersion": "verif.koreo.dev/v1", "kind": "FtProbe",
                          "metadata": {"name": "alpha", "namespace": "ft-ns"}}
@@ -518,11 +610,11 @@ async def probe(kind, fn_spec, inputs, current, extra_case=None):
     fn, ft = await g.prepare_ft_async(kind, fn_spec, ft_spec)
     if not result.is_unwrapped_ok(ft):
         raise Infra(f"generated FunctionTest did not prepare: {ft}")
-    with g.observe() as log:
+    with g.observe(record_requests=True) as log:
         await g.run_ft_async(ft)
     if len(log) != 1:
         return None
-    return log[0]["out"], log[0]["eff"]
+    return log[0]["out"], sent_effect(log[0])
 
 
 def gen_scenario(r):
@@ -539,7 +631,7 @@ def gen_scenario(r):
     return {"kind": kind, "fn_spec": fn_spec, "inputs": inputs, "situation": situation}
 
 
-async def realise(r, sc):
+async def realise(r, sc, foreign=None):
     """fill in the current resource for the scenario's situation (from what a create really sends)"""
     kind, fn_spec, inputs = sc["kind"], sc["fn_spec"], sc["inputs"]
     sit = sc["situation"]
@@ -567,6 +659,11 @@ async def realise(r, sc):
     else:
         if r.random() < 0.5:
             cur["status"] = {"ready": r.choice([True, "yes"])}
+    if foreign is None:
+        foreign = r.random() < 0.6
+    if foreign:
+        # the live object carries metadata nobody's target names (uid, foreign labels, finalizers, ...)
+        cur = add_foreign_metadata(r, cur)
     return cur
 
 
@@ -604,7 +701,7 @@ async def run_scenario(ck: Check, r, sc, want_cases=None, rerun=True):
     if not result.is_unwrapped_ok(ft):
         raise Infra(f"generated FunctionTest did not prepare: {ft}")
     records = []
-    with g.observe() as log:
+    with g.observe(record_requests=True) as log:
         try:
             res = await g.run_ft_async(ft)
         except g.FunctionRaised:
@@ -632,7 +729,7 @@ async def run_scenario(ck: Check, r, sc, want_cases=None, rerun=True):
         again = (again + ["not-run"] * len(cases))[:len(cases)]
     for (label, frag, must), tr, ob, g2 in zip(triples, res.test_results, log, again):
         records.append({"label": label, "case": frag, "must_pass": must, "got": bool(tr.test_pass),
-                        "got_again": g2, "out": ob["out"], "eff": ob["eff"]})
+                        "got_again": g2, "out": ob["out"], "eff": sent_effect(ob)})
     return records
 
 
@@ -709,8 +806,7 @@ def _run_e2e_chunk(ck: Check, drv: LeanDriver, r, n: int):
                            f"and {rec['got_again']} on its second")
             pending.append((sc, rec))
     if pending:
-        reqs = [{"op": "verdict", "as": g.assertion_wire(rec["case"]), "out": g.out_wire(rec["out"]),
-                 "eff": g.eff_wire(rec["eff"])} for _, rec in pending]
+        reqs = [verdict_request(rec["case"], rec["out"], rec["eff"]) for _, rec in pending]
         for (sc, rec), ans in zip(pending, drv.ask(reqs)):
             if ans.get("pass") != rec["got"]:
                 ck.disagree(scenario_case(sc, rec["case"], rec["must_pass"]), ans, rec["got"], "verdict-vs-test_pass")
@@ -731,7 +827,7 @@ async def run_cases_observed(kind, fn_spec, base: dict, cases: list, rerun=True)
     fn, ft = await g.prepare_ft_async(kind, fn_spec, dict(base, testCases=copy.deepcopy(cases)))
     if not result.is_unwrapped_ok(ft):
         raise Infra(f"generated FunctionTest did not prepare: {ft}")
-    with g.observe() as log:
+    with g.observe(record_requests=True) as log:
         try:
             res = await g.run_ft_async(ft)
         except g.FunctionRaised:
@@ -742,7 +838,7 @@ async def run_cases_observed(kind, fn_spec, base: dict, cases: list, rerun=True)
         return f"skip: {len(res.test_results)} results for {len(log)} cases that reached the Function"
     first = [bool(tr.test_pass) for tr in res.test_results]
     if not rerun:
-        return [(bool(tr.test_pass), ob["out"], ob["eff"]) for tr, ob in zip(res.test_results, log)]
+        return [(bool(tr.test_pass), ob["out"], sent_effect(ob)) for tr, ob in zip(res.test_results, log)]
     try:
         res2 = await g.run_ft_async(ft)      # the same prepared FunctionTest again
     except g.FunctionRaised:
@@ -752,7 +848,7 @@ async def run_cases_observed(kind, fn_spec, base: dict, cases: list, rerun=True)
     second = [bool(tr.test_pass) for tr in res2.test_results]
     if second != first:
         return f"rerun: the same prepared FunctionTest gave {first} and then {second}"
-    return [(bool(tr.test_pass), ob["out"], ob["eff"]) for tr, ob in zip(res.test_results, log)]
+    return [(bool(tr.test_pass), ob["out"], sent_effect(ob)) for tr, ob in zip(res.test_results, log)]
 
 
 def history_steps(r, fn_spec, inputs, in_sync, has_current):
@@ -771,6 +867,10 @@ def history_steps(r, fn_spec, inputs, in_sync, has_current):
     if has_current:
         # overlays apply to the threaded resource (the base one here), whatever it makes the Function do
         steps.append(("overlay-status", {"overlayResource": {"status": {"trip": {r.choice(list(g.TRIPS)): True}}}}))
+        # the live object picks up metadata the Function does not manage (whatever that makes the Function do)
+        steps.append(("overlay-foreign-metadata", {"overlayResource": {"metadata": {
+            "uid": r.choice(["5c1f-0a", "9d2e"]), "labels": {"injected-by": "mesh"},
+            **({"finalizers": ["mesh.example/guard"]} if r.random() < 0.5 else {})}}}))
     return steps
 
 
@@ -923,11 +1023,230 @@ def run_histories(ck: Check, drv: LeanDriver, r, n: int):
         ck.sample({"type": "history", "labels": [c["label"] for c in cases],
                    "pass": [x[0] for x in recs]}, limit=10)
     if pending:
-        reqs = [{"op": "verdict", "as": g.assertion_wire(c), "out": g.out_wire(out), "eff": g.eff_wire(eff)}
-                for _, _, _, c, _, out, eff in pending]
+        reqs = [verdict_request(c, out, eff) for _, _, _, c, _, out, eff in pending]
         for (sc, cases, i, c, got, out, eff), ans in zip(pending, drv.ask(reqs)):
             if ans.get("pass") != got:
                 ck.disagree(history_case(sc, cases, i), ans, got, "verdict-vs-test_pass(history)")
+
+
+# --------------------------------------------------------------------------- verdicts over mock conversations
+
+def gen_live_object(r):
+    """a live Kubernetes object as a case's resource: what a Function would have created, plus what the API
+    server and other controllers add to it (foreign metadata, status)"""
+    md = {"name": r.choice(["n", "alpha"]), "namespace": "ns"}
+    if r.random() < 0.5:
+        md["labels"] = {"app": r.choice(g.SAFE_STR)}
+    ann = {g.LAST_APPLIED: "{}"}
+    if r.random() < 0.3:
+        ann["team"] = r.choice(g.SAFE_STR)
+    md["annotations"] = ann
+    if r.random() < 0.3:
+        md["ownerReferences"] = [{"apiVersion": "v1", "kind": "Owner", "name": "o", "uid": "uid-0"}]
+    cur = {"apiVersion": "v1", "kind": "K", "metadata": md, "spec": g.gen_obj(r, 1)}
+    if r.random() < 0.6:
+        cur["status"] = r.choice([{"ready": True}, {"phase": "Bound", "n": 2}, {}])
+    if r.random() < 0.85:
+        cur = add_foreign_metadata(r, cur)
+    return cur
+
+
+def gen_mock_verdict_case(r):
+    """(current, calls): a conversation whose last mutating request is usually a PATCH over a live object"""
+    cur = r.choice([None, {}, "live", "live", "live", "live", "live", "live"])
+    if cur == "live":
+        cur = gen_live_object(r)
+    calls = [{"c": "get"}] if r.random() < 0.8 else []
+    k = r.random()
+    if k < 0.08:
+        return cur, calls
+    if k < 0.16:
+        return cur, calls + [{"c": "delete"}]
+    if cur:
+        # the body a Function sends: its own target (name/namespace/its labels/annotations), a changed spec
+        md = {kk: copy.deepcopy(v) for kk, v in cur["metadata"].items()
+              if kk in ("name", "namespace", "ownerReferences")}
+        if "labels" in cur["metadata"] and r.random() < 0.7:
+            md["labels"] = {kk: v for kk, v in cur["metadata"]["labels"].items() if kk not in FOREIGN_LABELS}
+            if not md["labels"]:
+                del md["labels"]
+        md["annotations"] = {kk: v for kk, v in cur["metadata"]["annotations"].items()
+                             if kk in (g.LAST_APPLIED, "team")}
+        body = {"apiVersion": cur["apiVersion"], "kind": cur["kind"], "metadata": md, "spec": g.gen_obj(r, 1)}
+        if r.random() < 0.1:
+            del body["metadata"]
+    else:
+        body = gen_live_object(r)
+        body.pop("status", None)
+    calls = calls + [{"c": "write", "verb": "PATCH" if cur else "POST", "body": body}]
+    if r.random() < 0.05:
+        calls.append({"c": "get"})
+    return cur, calls
+
+
+async def real_mock_materialized(ftrun, cur, calls):
+    """the conversation with the real `MockApi`; -> what `_run_test_case` reads back for the verdict"""
+    class Held:
+        def __init__(self, api=None, resource=None, namespace=None, **_):
+            self.raw = resource
+
+    api = ftrun.MockApi(current_resource=copy.deepcopy(cur))
+    for c in calls:
+        if c["c"] == "get":
+            [o async for o in api.async_get(Held, "name", namespace="ns")]
+        elif c["c"] == "delete":
+            async with api.call_api("DELETE", version="v1", url="things/name", namespace="ns"):
+                pass
+        else:
+            async with api.call_api(c.get("verb") or ("PATCH" if cur else "POST"), version="v1", url="things",
+                                    namespace="ns", data=json.dumps(c["body"])):
+                pass
+    return api.materialized, bool(api._delete_called)
+
+
+def mock_verdict_got(ftrun, cur, calls, case: dict, out):
+    try:
+        mat, deleted = ku.run(real_mock_materialized(ftrun, cur, calls))
+        if "expectResource" in case:
+            got = ftrun._validate_resource_match(expected=copy.deepcopy(case["expectResource"]),
+                                                 materialized=mat, actual_outcome=out).test_pass
+        else:
+            got = deleted == case["expectDelete"]
+        return bool(got)
+    except Exception as e:
+        return f"raised:{type(e).__name__}"
+
+
+def mock_verdict_assertions(r, cur, calls, eff):
+    """[(label, case, must_pass)] for one conversation: the truthful expectResource and one-step deviations,
+    among them expectations that list members of the live object which were never sent"""
+    out = []
+    if eff["e"] == "wrote" and isinstance(eff["m"], dict) and eff["m"]:
+        truth = expectation_of_written(eff["m"])
+        out.append(("truth", {"expectResource": g.shuffle_keys(r, truth)}, True))
+        for k, dev in never_sent_deviations(r, truth, cur, limit=4):
+            out.append((k, {"expectResource": dev}, None))
+        devs = g.deviations(r, truth)
+        for k, dev in r.sample(devs, min(2, len(devs))):
+            if isinstance(dev, dict) and dev:
+                out.append((k, {"expectResource": dev}, None))
+        if cur:
+            # what the live object looked like / the bare body are not what was sent (unless they coincide)
+            out.append(("live-object", {"expectResource": expectation_of_written(cur)}, None))
+            body = [c for c in calls if c["c"] == "write"][-1]["body"]
+            if isinstance(body, dict) and body:
+                out.append(("bare-body", {"expectResource": expectation_of_written(body)}, None))
+    else:
+        plausible = expectation_of_written(cur) if cur else {"apiVersion": "v1", "kind": "K", "metadata": {"name": "n"}}
+        out.append(("nothing-written", {"expectResource": plausible}, False))
+    out.append(("delete:truth", {"expectDelete": eff["e"] == "deleted"}, True))
+    return out
+
+
+def run_mock_verdicts(ck: Check, drv: LeanDriver, ftrun, r, n: int):
+    """`MockApi` + `_validate_resource_match` as `_run_test_case` combines them, on conversations over live
+    objects with foreign metadata; truth = the requests (`gen_ft.effect_of_requests`), never the mock's record"""
+    from koreo import result
+
+    if not (hasattr(ftrun, "MockApi") and hasattr(ftrun, "_validate_resource_match")):
+        ck.notes.append("MockApi/_validate_resource_match not found by name: mock verdict unit skipped (end to end only)")
+        return
+    todo = []
+    for _ in range(n):
+        cur, calls = gen_mock_verdict_case(r)
+        eff = dict(g.effect_of_requests(cur, calls), _cur=cur or None, _calls=calls)
+        out = result.Retry(message="Patching", delay=r.choice([0, 7, 30])) if r.random() < 0.9 else \
+            gen_outcome_obj(r, result, r.choice(["ok", "permFail", "skip"]))
+        for label, case, must in mock_verdict_assertions(r, cur, calls, eff):
+            todo.append((label, cur, calls, case, out, eff))
+    answers = drv.ask([verdict_request(case, out, eff) for _, _, _, case, out, eff in todo])
+    for (label, cur, calls, case, out, eff), ans in zip(todo, answers):
+        ck.evaluated()
+        want = verdict_ref(case, out, eff)
+        got = mock_verdict_got(ftrun, cur, calls, case, out)
+        ck.count(f"mock-verdict:{label}:{'pass' if want else 'fail'}")
+        ck.count(f"mock-verdict:effect:{eff['e']}{':over-live-object' if cur and eff['e'] == 'wrote' else ''}")
+        stored = {"type": "mock-verdict", "cur": cur, "calls": calls, "case": case, "out": g.out_wire(out)}
+        if label != "truth":
+            ck.nontriv(hashlib.sha1(json.dumps(["mv", to_wire(stored)], default=str).encode()).hexdigest()[:16])
+        ck.sample(dict(stored, label=label, holds=want), limit=6)
+        if got != want:
+            ck.violate(shrink_mock_verdict(ftrun, stored) if len(ck.violations) < 12 else stored,
+                       f"{label}: verdict {got} but the assertion {'holds' if want else 'does not hold'} for the "
+                       f"requests the Function made (a patch replaces the top-level keys it names)")
+        if "error" in ans:
+            ck.disagree(stored, ans, got, "driver-error")
+        elif not isinstance(got, str) and ans.get("pass") != got:
+            ck.disagree(stored, ans, got, "verdict∘Mock.effectOf-vs-_validate_resource_match∘MockApi")
+
+
+def mock_verdict_bad(ftrun, stored: dict):
+    """description of the wrong verdict on a stored mock-verdict case, or None"""
+    cur, calls, case = stored["cur"], stored["calls"], stored["case"]
+    out = outcome_from_wire(stored["out"])
+    eff = g.effect_of_requests(cur, calls)
+    want = verdict_ref(case, out, eff)
+    got = mock_verdict_got(ftrun, cur, calls, case, out)
+    if got == want:
+        return None
+    return f"verdict {got} but the assertion {'holds' if want else 'does not hold'} for the requests made"
+
+
+def shrink_mock_verdict(ftrun, stored: dict) -> dict:
+    """greedy: drop members of the live object / the body / the expectation while the verdict stays wrong"""
+    def variants(st):
+        for where in ("cur", "body", "exp"):
+            if where == "cur":
+                v = st["cur"]
+            elif where == "body":
+                ws = [i for i, c in enumerate(st["calls"]) if c["c"] == "write"]
+                if not ws:
+                    continue
+                v = st["calls"][ws[-1]]["body"]
+            else:
+                v = st["case"].get("expectResource")
+            if not isinstance(v, dict):
+                continue
+            for p in g.paths(v):
+                x = g.get_at(v, p)
+                if not isinstance(x, dict):
+                    continue
+                for k in list(x):
+                    d = dict(x)
+                    del d[k]
+                    nv = g.set_at(v, p, d)
+                    if not nv:
+                        continue
+                    c = copy.deepcopy(st)
+                    if where == "cur":
+                        c["cur"] = nv
+                    elif where == "body":
+                        c["calls"][ws[-1]]["body"] = nv
+                    else:
+                        c["case"]["expectResource"] = nv
+                    yield c
+        if len(st["calls"]) > 1:
+            for i, c0 in enumerate(st["calls"]):
+                if c0["c"] == "get":
+                    c = copy.deepcopy(st)
+                    del c["calls"][i]
+                    yield c
+
+    budget = 300
+    changed = True
+    while changed and budget > 0:
+        changed = False
+        for c in variants(stored):
+            budget -= 1
+            if budget <= 0:
+                break
+            try:
+                if mock_verdict_bad(ftrun, c):
+                    stored, changed = c, True
+                    break
+            except Exception:
+                pass
+    return stored
 
 
 # --------------------------------------------------------------------------- verdicts do not depend on what ran before
@@ -1055,6 +1374,8 @@ def check_case(ftrun, case: dict):
         return match_oracle(ftrun, case["t"], case["a"])
     if case["type"] == "verdict":
         return check_verdict_case(ftrun, case)
+    if case["type"] == "mock-verdict":
+        return mock_verdict_bad(ftrun, case)
     if case["type"] == "history":
         return history_verdicts(case, case["cases"])
     if case["type"] == "stability":
@@ -1160,6 +1481,7 @@ def run(tier: str) -> int:
     n_hist = 90 if tier == "quick" else 2000
     timed("unit", run_unit, ck, drv, ftrun, r, n_unit)
     timed("unit-verdicts", run_unit_verdicts, ck, drv, ftrun, rng("c19-verdicts"), n_unit // 4)
+    timed("mock-verdicts", run_mock_verdicts, ck, drv, ftrun, rng("c19-mock-verdicts"), 1200 if tier == "quick" else 20000)
     timed("e2e", run_e2e, ck, drv, rng("c19-e2e"), n_e2e)
     timed("histories", run_histories, ck, drv, rng("c19-history"), n_hist)
     if tier == "thorough":
@@ -1168,6 +1490,7 @@ def run(tier: str) -> int:
     def widen(ck2: Check):
         run_unit(ck2, drv, ftrun, rng("c19-wide"), 100000)
         run_unit_verdicts(ck2, drv, ftrun, rng("c19-wide-verdicts"), 30000)
+        run_mock_verdicts(ck2, drv, ftrun, rng("c19-wide-mock-verdicts"), 8000)
         run_e2e(ck2, drv, rng("c19-wide-e2e"), 1500)
         run_histories(ck2, drv, rng("c19-wide-history"), 800)
 
@@ -1180,7 +1503,12 @@ def run(tier: str) -> int:
              "(fresh, existing matching/drifted/foreign resource, status trips, readonly, deleteIfExists, input trips) "
              "× every assertion kind, truthful and one-step deviating; multi-case histories (a create/patch/delete "
              "case followed by cases that do not touch the API — precondition trips, in-sync no-op, postcondition "
-             "trips — asserted with the EARLIER case's object / delete, variant and non-variant); non-trivial = any non-truth pair / assertion, "
+             "trips — asserted with the EARLIER case's object / delete, variant and non-variant); existing resources "
+             "carry foreign metadata (uid, resourceVersion, finalizers, injected labels/annotations) and the truth of "
+             "every expectResource is derived from the REQUESTS recorded at the mock's boundary (body, for a patch over "
+             "the case's resource with top-level replace), with deviations that list never-sent members; mock-verdict "
+             "unit: GET/PATCH/POST/DELETE conversations with the real MockApi over such live objects judged by "
+             "_validate_resource_match; non-trivial = any non-truth pair / assertion, "
              "distinct by content",
     )
 
